@@ -261,6 +261,9 @@ breaking('H9-seed-C07-r4m3', {'C07': 'H9'}, patch='/verif/selftest/patches/seed_
 breaking('MC3-seed-C09-r4m1', {'C09': 'MC3'}, patch='/verif/selftest/patches/seed_C09_r4m1.diff')
 breaking('DT5-seed-C09-r4m2', {'C09': 'DT5'}, patch='/verif/selftest/patches/seed_C09_r4m2.diff')
 breaking('SP1-seed-C09-r4m3', {'C09': 'SP1'}, patch='/verif/selftest/patches/seed_C09_r4m3.diff')
+breaking('W8-seed-C02-r4m1', {'C02': 'W8'}, patch='/verif/selftest/patches/seed_C02_r4m1.diff')
+breaking('HM1-seed-C02-r4m2', {'C02': 'HM1'}, patch='/verif/selftest/patches/seed_C02_r4m2.diff')
+breaking('DT7-seed-C02-r4m3', {'C02': 'DT7'}, patch='/verif/selftest/patches/seed_C02_r4m3.diff')
 breaking('refix-get_gme_2qubit', {'C13': 'F2', 'C05': 'F2'}, patch_reverse='fix_78cd862.diff')
 
 # ---- behaviour-preserving edits for the second half of the round-3 rules
@@ -285,6 +288,7 @@ breaking('MC3-new-memo-qec', {'C19': 'MC3', 'C04': 'MC3'}, edit=[(M + 'qec/_inte
 preserving('mc3-memo-of-int', ['C16'], [(M + 'gellmann.py', "def gellmann_matrix(i:int, j:int, d:int):", "@functools.lru_cache\ndef _gm_count(d):\n    return int(d*d)\n\n\ndef gellmann_matrix(i:int, j:int, d:int):")])
 breaking('PU1-inplace-normalise-input-random', {'C10': 'PU1'}, edit=[(M + 'random/_internal.py', "def rand_channel_matrix_space(dim_in, num_term, seed=None):\n    np_rng = get_numpy_rng(seed)", "def _normalise_rows(np0):\n    np0 /= np.linalg.norm(np0, axis=-1, keepdims=True)\n    return np0\n\n\ndef rand_channel_matrix_space(dim_in, num_term, seed=None):\n    np_rng = get_numpy_rng(seed)")])
 breaking('PU1-inplace-hermitise-input-utils', {'C12': 'PU1', 'C17': 'PU1', 'C05': 'PU1'}, edit=[(M + 'utils.py', "def partial_trace(rho:np.ndarray, dim:tuple[int], keep_index:set[int]):", "def _hermitise(rho):\n    rho += rho.T.conj()\n    rho /= 2\n    return rho\n\n\ndef partial_trace(rho:np.ndarray, dim:tuple[int], keep_index:set[int]):")])
+preserving('d6-structural-skip-by-name', ['C03'], [(M + 'sim/circuit.py', "        for gate,index in self.gate_index_list:\n            if gate.kind=='unitary':\n                q0 = numqi.sim.state.apply_gate(q0, gate.array, index)", "        for gate,index in self.gate_index_list:\n            if gate.name=='barrier':\n                continue\n            if gate.kind=='unitary':\n                q0 = numqi.sim.state.apply_gate(q0, gate.array, index)")])
 # ---- textual breaking edits, one per rule family
 breaking('S3-ambient-draw', {'C10': 'S3'}, edit=[(M + 'random/_internal.py', "tmp0 = np_rng.normal(size=(N0,dim))\n    tmp0 = tmp0 / np.linalg.norm", "tmp0 = np.random.normal(size=(N0,dim))\n    tmp0 = tmp0 / np.linalg.norm")])
 breaking('S4-unseeded-receiver', {'C10': 'S4'}, edit=[(M + 'random/_internal.py', "    np_rng = get_numpy_rng(seed)\n    assert dim>=2\n    tmp0 = np.triu(", "    np_rng = get_numpy_rng(seed)\n    assert dim>=2\n    np_rng = np.random.default_rng(dim)\n    tmp0 = np.triu(")])
